@@ -8,6 +8,18 @@ from ..info import Info
 MONS = [M.mon_c10]
 
 
+def mon_step_kind(ex, info, col):
+    """only the step-kind clause (for runs whose log index is not the step's time)"""
+    out = []
+    absn = set(ex.opts.get("absence") or ())
+    for t in sorted(ex.lib_working):
+        col.checks["c10.step-kind"] += 1
+        if (t in absn) != (ex.lib_working[t] is False):
+            out.append(M.V("C10", "C10:project-absence-step-treated-as-working-step" if t in absn else "C10:working-step-treated-as-project-absence-step", ex,
+                           {"t": t, "absence_list": sorted(absn), "unit_time": ex.opts.get("unit_time"), "library_working_flag": ex.lib_working[t]}))
+    return out
+
+
 def logs_only(m):
     d = S.dump(m, live=False)
     d.pop("absence", None)
@@ -184,6 +196,9 @@ def run(tier, seed):
     # backward runs (inner run observed, logs left unreversed) with project-wide absence steps and both values of the automatic-task flag
     bi = [(sp, dict(o, backward=True, rev=False, absence=list(ab))) for sp, o in mi[:: (5 if tier == "quick" else 2)] for ab in ((1,), (0, 2), (2, 3))]
     col.merge(stepcheck.explore(bi, MONS, 0, 0, seed=seed))
+    # a step width other than 1: a step is an absence step exactly when its own time is in the list (times between two steps name no step)
+    ut = [(sp, dict(o, unit_time=u, absence=list(ab), max_time=o["max_time"] * u)) for sp, o in mi[:: (9 if tier == "quick" else 3)] for u, ab in ((2, (1, 3)), (2, (3,)), (3, (1, 2, 4)))]
+    col.merge(stepcheck.explore(ut, [mon_step_kind], 0, 0, seed=seed))
     # project-wide lists in any order and with repeated entries
     seqs = F.absence_sequences(5, 3)
     lit2 = [(sp, {"rule": "TSLACK", "auto_abs": aa, "max_time": 24, "absence": list(s)}) for sp in F.absence_probe_models() for aa in (False, True)
@@ -211,4 +226,4 @@ def replay(v):
         m1, m2, t_with = differential(v["spec"], v["opts"], v["absence"], pause=v.get("pause"))
         d = diff_paths(logs_only(m1), logs_only(m2))
         return [{"sig": classify_diff(v["absence"], t_with, d, v["opts"].get("rule")) + (":run-stopped-and-continued" if v.get("pause") is not None else ""), "detail": d}] if d else []
-    return stepcheck.replay(v, MONS)
+    return stepcheck.replay(v, MONS + [mon_step_kind] if (v.get("opts") or {}).get("unit_time") else MONS)
